@@ -131,6 +131,7 @@ Fixpoint radix_digits (fuel : nat) (r : Z) (u : Z) (acc : ustr) : ustr :=
 
 Definition radix_int_model (bits r : Z) : option ustr :=
   let u := mag bits in
+  if INF <=? u then None else
   match int_value u with
   | Some _ =>
       if u =? 0 then Some [48] else
@@ -263,3 +264,9 @@ Definition to_precision_model (bits : Z) (pd : option Z) : res :=
         else if 0 <=? exponent then Str (prefix ++ insert_at e_inc 46 suffix)
         else Str (prefix ++ [48; 46] ++ zrepeat 48 (- e_inc) ++ suffix)
   end.
+
+(* ------------------------------------------------------------------------------------------------ *)
+(* bit patterns used as refutation witnesses in Props_C13 *)
+Definition bits_min_subnormal : Z := 1.                                  (* 5e-324 *)
+Definition bits_2_5 : Z := 4612811918334230528.                          (* 0x4004000000000000 = 2.5 *)
+Definition bits_1_25 : Z := 4608308318706860032.                         (* 0x3FF4000000000000 = 1.25 *)
